@@ -2,7 +2,7 @@
 # tools/intake_all.sh <seed-root> <prefix>: file every finished, not yet filed seed worktree
 root="$1"; prefix="$2"
 for d in "$root"/C??; do
-  [ -f "$d/SEED_PATCH.diff" ] || continue
+  [ -f "$d/SEED_PATCH.diff" ] && [ -f "$d/SEED_NOTES.md" ] || continue
   id=$(basename "$d")
   name="${prefix}${id#C}"
   ls -d /verif/seeded/${name}_* >/dev/null 2>&1 && continue
